@@ -8,6 +8,8 @@
 #include <ftp/detail/control_connection.hpp>
 #include <ftp/detail/socket_base.hpp>
 #include <ftp/detail/net_context.hpp>
+#include "command_parser.hpp"
+#include "cmdline_exception.hpp"
 #include "leaf_ext.hpp"
 #include "hexio.hpp"
 #include <cstring>
@@ -161,6 +163,26 @@ std::string leaf_ext_run(const std::vector<std::string> & f)
     const std::string & k = f.at(0);
     if (k == "frame") return run_frame(f);
     if (k == "wfcheck") return "ok";
+    if (k == "parse" || k == "parse_rt")
+    {
+        static const char *names[] = {"open", "mode", "active", "passive", "user", "cd", "cdup", "ls", "put", "get", "rename",
+                                      "pwd", "mkdir", "rmdir", "del", "stat", "syst", "type", "binary", "ascii", "size",
+                                      "noop", "rhelp", "logout", "close", "help", "exit"};
+        std::string line = unhex(f.at(1));
+        try
+        {
+            auto res = parse_command(line);
+            int idx = (int)res.first;
+            std::string out = (idx >= 0 && idx < 27) ? names[idx] : ("ENUM-OUT-OF-RANGE-" + std::to_string(idx));
+            out += " " + std::to_string(res.second.size());
+            for (const std::string & a : res.second) out += " " + hex(a);
+            return out;
+        }
+        catch (const cmdline_exception & e)
+        {
+            return std::string(e.what()) == "Invalid command." ? "invalid" : std::string("invalid-with-other-message");
+        }
+    }
     if (k == "aup")
     {
         size_t isz = std::stoul(f.at(1));
@@ -239,7 +261,7 @@ std::string leaf_ext_run(const std::vector<std::string> & f)
     {
         boost::asio::ip::tcp::endpoint ep(boost::asio::ip::make_address("127.0.0.1"), (unsigned short)std::stoul(f.at(1)));
         std::string cmd = client::make_eprt_command(ep);
-        std::vector<std::string> parts = utils::split_string(cmd, '|');
+        std::vector<std::string> parts = ftp::detail::utils::split_string(cmd, '|');
         reply r(229, "229 ok (|||" + parts.at(3) + "|)");
         std::uint16_t port = 0;
         if (!client::try_parse_epsv_reply(r, port)) return "none";
